@@ -14,7 +14,7 @@ import (
 func init() {
 	register("C17",
 		"the predicates' tables against their textual definitions; anything about the underlying lunar conversion (C01).",
-		r17_1, r17_2, r17_3, r17_4, r17_5, r17_6, r17_7)
+		r17_1, r17_2, r17_3, r17_4, r17_5, r17_6, r17_7, r17_8)
 }
 
 // affine form: sum of coef*symbol + constant. Symbols: "param:<name>", "lunar.year" (the
